@@ -78,24 +78,48 @@ def _ref_name(r, outer):
     return outer[key]
 
 
+def arith_line(kind, args, w, res, ws, outer):
+    names = [_ref_name(a, outer) for a in args]
+    if kind in ("addi", "muli", "subi", "shrsi", "minsi", "maxsi"):
+        return f"  {res} = arith.{kind} {names[0]}, {names[1]} : i{w}"
+    if kind in ("extsi", "trunci"):
+        return f"  {res} = arith.{kind} {names[0]} : i{ref_width(ws, args[0])} to i{w}"
+    if isinstance(kind, list) and kind[0] == "const":
+        return f"  {res} = arith.constant {kind[1]} : i{w}"
+    if isinstance(kind, list) and kind[0] == "other":
+        return f"  {res} = {kind[1]} {names[0]}, {names[1]} : i{w}"
+    raise ValueError(kind)
+
+
 def render_ops(body, outer):
     ws = value_widths(body)
     n = len(body["args"])
+    return [arith_line(kind, args, w, f"%v{n + j}", ws, outer) for j, (kind, args, w) in enumerate(body["ops"])]
+
+
+def is_kop(op):
+    return op[0] == "k"
+
+
+def mvalue_widths(mb):
+    return list(mb["args"]) + [op[4] if is_kop(op) else op[2] for op in mb["ops"]]
+
+
+def render_mbody_case(mb):
+    """a body mixing kernel ops ["k", kernel, operands, opTypes, resWidth] and arith ops [kind, operands, width]"""
+    outer = {}
+    ws = mvalue_widths(mb)
+    n = len(mb["args"])
     lines = []
-    for j, (kind, args, w) in enumerate(body["ops"]):
+    for j, op in enumerate(mb["ops"]):
         res = f"%v{n + j}"
-        names = [_ref_name(a, outer) for a in args]
-        if kind in ("addi", "muli", "subi", "shrsi", "minsi", "maxsi"):
-            lines.append(f"  {res} = arith.{kind} {names[0]}, {names[1]} : i{w}")
-        elif kind in ("extsi", "trunci"):
-            lines.append(f"  {res} = arith.{kind} {names[0]} : i{ref_width(ws, args[0])} to i{w}")
-        elif isinstance(kind, list) and kind[0] == "const":
-            lines.append(f"  {res} = arith.constant {kind[1]} : i{w}")
-        elif isinstance(kind, list) and kind[0] == "other":
-            lines.append(f"  {res} = {kind[1]} {names[0]}, {names[1]} : i{w}")
+        if is_kop(op):
+            lines.append(kernel_line({"kernel": op[1], "operands": op[2], "opTypes": op[3], "resWidth": op[4]}, res, outer))
         else:
-            raise ValueError(kind)
-    return lines
+            lines.append(arith_line(op[0], op[1], op[2], res, ws, outer))
+    ret = mb["ret"]
+    y = "  linalg.yield " + ", ".join(_ref_name(r, outer) for r in ret) + " : " + ", ".join(f"i{ref_width(ws, r)}" for r in ret)
+    return render_module(mb["args"], lines, y, outer)
 
 
 def render_module(args, body_lines, yield_line, outer, accs=(), dynamic=False, library_call=None):
@@ -239,6 +263,31 @@ class BlockView:
                 kind = ["other", op.name, bool(op.has_trait(Commutative))]
             ops.append([kind, [self.ref(v) for v in op.operands], w])
         return {"args": self.args, "ops": ops, "ret": self.ret()}
+
+    def mbody_json(self):
+        """mixed form: kernel ops and arith ops in any order"""
+        ops = []
+        for j, op in enumerate(self.ops[:-1]):
+            if op.name in KERNEL_NAMES:
+                if op.name == "kernel.rescale":
+                    raise Unsupported("kernel.rescale in a mixed body")
+                ops.append(["k", KERNEL_NAMES[op.name], [self.ref(v) for v in op.operands],
+                            [_width(v.type) for v in op.operands], _width(op.results[0].type)])
+            else:
+                ops.append(self._arith_json(op))
+        return {"args": self.args, "ops": ops, "ret": self.ret()}
+
+    def _arith_json(self, op):
+        from xdsl.dialects import arith
+        from xdsl.traits import Commutative
+        w = _width(op.results[0].type)
+        if op.name in ARITH_KINDS:
+            kind = ARITH_KINDS[op.name]
+        elif isinstance(op, arith.ConstantOp):
+            kind = ["const", op.value.value.data]
+        else:
+            kind = ["other", op.name, bool(op.has_trait(Commutative))]
+        return [kind, [self.ref(v) for v in op.operands], w]
 
     def kbody_json(self):
         k = self.kernel_op()
@@ -586,6 +635,77 @@ def gen_kbody(rng):
     return kb
 
 
+def gen_fused(rng):
+    """bodies with a kernel op followed by further kernel / arith ops before the yield, or with a kernel op that is
+    not the first op; every kernel instance is well typed"""
+    c = rng.choice([16, 32, 32, 64])
+    narrow = [w for w in WIDTHS if w < c]
+    first = rng.choice(["mul", "add", "mac", "macx", "qmac", "arith", "arith"])
+    if first in ("mul", "add", "mac", "arith"):
+        args = [c, c, c] if rng.random() < 0.7 else [rng.choice(narrow), rng.choice(narrow), c]
+    elif first == "macx":
+        args = [rng.choice(narrow), rng.choice(narrow), c]
+    else:
+        args = [rng.choice(narrow), rng.choice(narrow), c, c, c]
+    ws = list(args)
+    ops = []
+
+    def pick(w):
+        return ["v", rng.choice([i for i in range(len(ws)) if ws[i] == w])]
+
+    def add_kernel(k):
+        if k in ("mul", "add"):
+            ops.append(["k", k, [pick(c), pick(c)], [c, c], c])
+        elif k == "mac":
+            ops.append(["k", "mac", [pick(c), pick(c)], [c, c], c])
+        elif k == "macx":
+            cands = [i for i in range(len(ws)) if ws[i] < c]
+            a, b = rng.choice(cands), rng.choice(cands)
+            ops.append(["k", "mac", [["v", a], ["v", b]], [ws[a], ws[b]], c])
+        else:
+            cands = [i for i in range(len(ws)) if ws[i] < c]
+            a, b = rng.choice(cands), rng.choice(cands)
+            ops.append(["k", "qmac", [["v", a], ["v", b], pick(c), pick(c)], [ws[a], ws[b], c, c], c])
+        ws.append(c)
+
+    def add_arith():
+        cands = [i for i in range(len(ws)) if ws[i] < c]
+        if cands and rng.random() < 0.3:
+            ops.append(["extsi", [["v", rng.choice(cands)]], c])
+        else:
+            ops.append([rng.choice(BIN), [pick(c), pick(c)], c])
+        ws.append(c)
+
+    def kernel_choices():
+        ks = ["mul", "add", "mac"]
+        if any(w < c for w in ws):
+            ks += ["macx", "qmac"]
+        return ks
+
+    canonical_first = rng.random() < 0.6
+    if first == "arith":
+        add_arith()
+    elif canonical_first and (first in ("macx", "qmac") or args == [c, c, c]):
+        # the first op is exactly what convert-linalg-to-kernel writes; what follows makes the body fused
+        n = len(args)
+        ops.append(["k", "mac" if first == "macx" else first, [["v", i] for i in range(n - 1)], args[:-1], c])
+        ws.append(c)
+    else:
+        add_kernel(first if first in kernel_choices() else rng.choice(kernel_choices()))
+    for _ in range(rng.choice([1, 1, 1, 2, 2, 3])):
+        if rng.random() < 0.5 or (first == "arith" and not any(is_kop(o) for o in ops)):
+            add_kernel(rng.choice(kernel_choices()))
+        else:
+            add_arith()
+    # mostly the later ops use the first result and the last value is yielded (a real fusion)
+    if rng.random() < 0.7 and len(ops) >= 2 and not is_kop(ops[-1]) and len(ops[-1][1]) == 2:
+        ops[-1][1][0] = ["v", len(args)]
+    elif rng.random() < 0.7 and len(ops) >= 2 and is_kop(ops[-1]) and ops[-1][1] in ("mul", "add", "mac") and ops[-1][3] == [c, c]:
+        ops[-1][2][0] = ["v", len(args)]
+    r = len(ws) - 1 if rng.random() < 0.85 else rng.choice([i for i in range(len(ws)) if ws[i] == c])
+    return {"kind": "fused", "mbody": {"args": args, "ops": ops, "ret": [["v", r]]}}
+
+
 def gen_rescale(rng):
     s32 = lambda: rng.choice([0, 0, 1, -1, 23, -15, 127, -128, rng.randint(-1000, 1000), rng.randint(-2**31, 2**31 - 1)])
     nch = rng.choice([1, 1, 1, 1, 2, 3])
@@ -657,7 +777,8 @@ class C18(Prop):
             "single mutations of them (rewire, swap, kind, yield, order, constant, extra op, width) and random well-typed bodies "
             "of <= 4 ops over addi/muli/subi/extsi; expand: kernel-form bodies with canonical and non-canonical wiring; rescale: "
             "random parameter sets (1-3 channels, shifts 1..63 and a few outside, double_round) x 20 inputs incl. extremes; "
-            "dispatch: kernel kind x operand types x ordered subset of accelerators x dynamic/preset/fused. non-trivial = "
+            "fused: bodies with a (canonical or rewired) kernel op followed by 1-3 further kernel/arith ops, or an arith op "
+            "followed by kernel ops, through convert-kernel-to-linalg; dispatch: kernel kind x operand types x ordered subset of accelerators x dynamic/preset/fused. non-trivial = "
             "recognised, or same op-kind multiset as a kernel, or non-canonical kernel form, or library_call set. thorough adds "
             "the exhaustive space: every body of <= 2 ops on (32,32,32),(8,8,32),(8,16,32),(64,64,64) and every wiring of the "
             "op-kind sequence extsi,extsi,muli,addi on (8,8,32)")
@@ -678,6 +799,8 @@ class C18(Prop):
             yield {"kind": "recognize", "body": gen_random_body(rng, 4 if q else 6)}
         for _ in range(200 if q else 3000):
             yield {"kind": "expand", "kbody": gen_kbody(rng)}
+        for _ in range(200 if q else 3000):
+            yield gen_fused(rng)
         for _ in range(200 if q else 3000):
             yield gen_rescale(rng)
         for _ in range(200 if q else 3000):
@@ -700,6 +823,8 @@ class C18(Prop):
             return self.impl_recognize(case)
         if k == "expand":
             return self.impl_expand(case)
+        if k == "fused":
+            return self.impl_fused(case)
         if k == "rescale":
             return self.impl_rescale(case)
         if k == "dispatch":
@@ -761,6 +886,25 @@ class C18(Prop):
         return {"kbody": kb, "ins": ins[:N_CORR], "kvals": before[:N_CORR], "body": oview.body_json(),
                 "vals": after[:N_CORR], "_before": before, "_after": after, "_ins": ins}
 
+    def impl_fused(self, case):
+        import snaxrun
+        mb = case["mbody"]
+        src = render_mbody_case(mb)
+        mod, view = self._load(src)
+        if mod is None:
+            return view
+        if view.mbody_json() != mb:
+            raise Unsupported(f"renderer/converter round trip differs (mixed body): {view.mbody_json()} vs {mb}")
+        before_text = snaxrun.text(mod)
+        ins = gen_inputs(case_rng(case), view.args, N_INPUTS)
+        before = [interpret(view, i) for i in ins]
+        out = snaxrun.run_passes(src, "convert-kernel-to-linalg")
+        omod = snaxrun.parse(out)
+        oview = BlockView(find_generic(omod).body.block)
+        after = [interpret(oview, i) for i in ins]
+        return {"mbody": mb, "ins": ins[:N_CORR], "vals": before[:N_CORR], "out": oview.mbody_json(),
+                "unchanged": snaxrun.text(omod) == before_text, "_before": before, "_after": after, "_ins": ins}
+
     def impl_rescale(self, case):
         import numpy as np
         import snaxrun
@@ -818,6 +962,9 @@ class C18(Prop):
             return [{"fn": "c18.expand", "args": {"kbody": impl_out["kbody"]}},
                     {"fn": "c18.keval", "args": {"kbody": impl_out["kbody"], "ins": impl_out["ins"]}},
                     {"fn": "c18.eval", "args": {"body": impl_out["body"], "ins": impl_out["ins"]}}]
+        if k == "fused":
+            return [{"fn": "c18.lower", "args": {"mbody": impl_out["mbody"]}},
+                    {"fn": "c18.meval", "args": {"mbody": impl_out["mbody"], "ins": impl_out["ins"]}}]
         if k == "rescale":
             return [{"fn": "c18.rescale_body", "args": {"params": case["params"], "args": case["args"]}},
                     {"fn": "c18.rescale_eval", "args": {"params": case["params"], "ch": case["ch"], "xs": case["xs"]}}]
@@ -852,6 +999,10 @@ class C18(Prop):
         if k == "expand":
             return {"kbody": impl_out["kbody"], "ins": impl_out["ins"], "kvals": answers[1]["ok"], "body": answers[0]["ok"],
                     "vals": answers[2]["ok"]}
+        if k == "fused":
+            r = answers[0]["ok"]
+            return {"mbody": impl_out["mbody"], "ins": impl_out["ins"], "vals": answers[1]["ok"], "out": r["out"],
+                    "unchanged": not r["fired"]}
         if k == "rescale":
             b = answers[0]["ok"]
             if isinstance(b, dict) and "raised" in b:
@@ -915,6 +1066,15 @@ class C18(Prop):
                 if b is not None and a != b:
                     return [{"what": f"kernel form {kb} computes {b} on inputs {i}, its expansion {impl_out['body']} computes {a}",
                              "finding": None if canonical else "DC18a"}]
+            return []
+        if k == "fused":
+            # whatever the pass does to a body mixing kernel and arith ops, its function must stay the same
+            mb = impl_out["mbody"]
+            single = len(mb["ops"]) == 1 and is_kop(mb["ops"][0])
+            for i, b, a in zip(impl_out["_ins"], impl_out["_before"], impl_out["_after"]):
+                if b is not None and a != b:
+                    return [{"what": f"body {mb} computes {b} on inputs {i}; after convert-kernel-to-linalg it is "
+                                     f"{impl_out['out']} and computes {a}", "finding": "DC18a" if single else None}]
             return []
         if k == "rescale":
             p = case["params"]
@@ -997,6 +1157,8 @@ class C18(Prop):
             return f"recognize:{kf['kernel'] if kf else 'none'}"
         if k == "dispatch":
             return f"dispatch:{impl_out.get('library_call')}"
+        if k == "fused":
+            return "fused:kernel-first" if is_kop(case["mbody"]["ops"][0]) else "fused:arith-first"
         if k == "rescale":
             return "rescale:double_round" if case["params"]["double_round"] else "rescale"
         return k
